@@ -102,13 +102,7 @@ var kpDecoder, _ = zstd.NewReader(nil)
 
 // ZstdEncodeKP compresses with klauspost at a level in 1..4 (SpeedFastest..Best).
 func ZstdEncodeKP(b []byte, level int) []byte {
-	lv := zstd.EncoderLevel(level)
-	if lv < zstd.SpeedFastest || lv > zstd.SpeedBestCompression {
-		lv = zstd.SpeedDefault
-	}
-	enc, _ := zstd.NewWriter(nil, zstd.WithEncoderLevel(lv))
-	defer enc.Close()
-	return enc.EncodeAll(b, nil)
+	return ZstdEncodeKPCached(b, level) // shared encoder per level (c16_zstd.go): creating one per call dominated run time
 }
 
 // ZstdEncodeC compresses with libzstd (cgo) at a level 1..19.
